@@ -3,10 +3,10 @@
 import json, sys, os, subprocess
 pid, needs = sys.argv[1], sys.argv[2]
 d = '/verif/seeded/' + pid
-title = [json.loads(l) for l in open('/verif/properties.jsonl') if json.loads(l)['id'] == pid][0]['title']
+title = [json.loads(l) for l in open('/verif/properties.jsonl') if json.loads(l)['id'] == pid[:3]][0]['title']
 log = open(d + '/confirm.log').read() if os.path.exists(d + '/confirm.log') else ''
-meta = {'property': pid, 'property_title': title, 'origin': 'independent sub-agent given only the property text and a scratch worktree of /repo (HEAD incl. fix: commits)',
-        'files_changed': sorted({l[6:] for l in open(d + '/patch.diff') if l.startswith('+++ b/')}),
+meta = {'property': pid[:3], 'seed': pid, 'property_title': title, 'origin': 'independent sub-agent given only the property text and a scratch worktree of /repo (HEAD incl. fix: commits)',
+        'files_changed': sorted({l[6:].strip() for l in open(d + '/patch.diff') if l.startswith('+++ b/')}),
         'needs_to_manifest': needs,
         'confirmed_by_me': {'how': 'tools/seed_confirm.sh: rebuilt the worktree with the change, ctest (all 17 baseline tests pass), demo/build.sh + demo/demo non-zero with the change, reverted with git apply -R, rebuilt, demo exits 0, change re-applied', 'log': log.strip().split('\n')},
         'checks_run': {a.split('=', 1)[0]: a.split('=', 1)[1] for a in sys.argv[3:]},
